@@ -128,6 +128,9 @@ fn target_count_case(case: &mut Case) {
     let large = case.rng.pct(25);
     let mut g = if large {
         let mut g = gen_graph(&mut case.rng, &Knobs { layered: Some((5, 1200)), ..Knobs::default() });
+        // many initial states, so that the reachable set spans several 1500-state blocks (the
+        // target is only looked at between blocks)
+        g.inits = (0..case.rng.range(200, 600) as u32).collect();
         // boundary cuts: successors that are generated but lie outside must not count
         if case.rng.pct(60) {
             for s in 1200..g.n {
@@ -191,6 +194,9 @@ fn target_count_case(case: &mut Case) {
                     .map(|s| model.out[*s as usize].iter().filter(|e| matches!(e, Some(t) if model.inb[*t as usize])).count())
                     .sum::<usize>();
             case.add("generated_counts_recomputed", 1);
+            if std::env::var_os("SVMON_DEBUG").is_some() {
+                eprintln!("[c12] {} t={} target={} reported={} recomputed={} visited={} cuts={}", strategy.name(), threads, target, out.state_count, generated, visited.len(), model.inb.iter().filter(|b| !**b).count());
+            }
             if generated < target {
                 case.violation(
                     &format!("C12/target_state_count/{}/stopped-below-target-although-more-exist", strategy.name()),
